@@ -42,6 +42,8 @@ def main():
         shutil.copy(os.path.join(wt, "Cargo.lock"), os.path.join(proj, "Cargo.lock"))
     for k in sorted(d for d in os.listdir(outd) if re.fullmatch(r"m\d+", d)):
         md = os.path.join(outd, k)
+        if os.path.exists(os.path.join(md, "confirm.json")):
+            continue      # confirmed in an earlier round
         res = {"property": pid, "mutant": k}
         try:
             patch = os.path.join(md, "patch.diff")
